@@ -1,7 +1,7 @@
 CONSTANTS Depth = 3
  UOps = {"-", ".not."}
  BOps = {"*", "-", "<", ".and."}
- WithCalls = TRUE
+ WithCalls = FALSE
  LeafSet = {1}
 INIT Init
 NEXT Next
